@@ -6,6 +6,11 @@
 extern crate alloc;
 
 mod lender;
+#[cfg(aranya_core_verif)]
+#[allow(missing_docs)]
+pub mod verif_lender {
+    pub use super::lender::{Lender, Loan};
+}
 
 use alloc::{collections::btree_map::BTreeMap, sync::Arc};
 
